@@ -20,6 +20,8 @@ def run(res, pool, tier, seed):
                      constants=dict(B=2, KA=set(FLAT), KB=set(FLAT), SEED=seed % 1000, NSHARD=12, NBORING=6),
                      invariants=[i for i in INVS if i != "ProbesAgree"], timeout=7200)]
     engine.run_jobs(res, jobs, pool)
+    import traces
+    traces.run_for(res, ["unit_tests", "driver"], {"C01"}, seed=seed, nsessions=250 if tier == "quick" else 2500)
 
 
 def replay_case(case, tag, rng, tier):
